@@ -15,6 +15,10 @@ def gen_C01(v, n):
         others = [l for l in v.labels if len(v.tdict[l]) == len(fields) and l != label]
         if others:
             out.append(_op("C01", {"s": s, "pre": [v.rng.choice(others) + ":" + s]}))
+    for _ in range(max(5, n // 25)):      # every type forced on a typed string, also with a trailing newline
+        label, s, fields = v.typed_sid(search=0.4)
+        for l2 in [l for l in v.labels if len(v.tdict[l]) == len(fields)]:
+            out.append(_op("C01", {"s": l2 + ":" + s + v.rng.choice(["", "\n", "\n", " "])}))
     for s in ["", ":", "a:b:c", "hamlet\n", "hamlet/a/char\n", "hamlet/s/sq001/sh0010/anim/v001/w/ma\n", "project:hamlet",
               "nope:hamlet", ":hamlet", "asset__file:hamlet/a/char/x/model/v001/w/ma", "hamlet/s/sq٠٠١"]:
         out.append(_op("C01", {"s": s}))
@@ -109,6 +113,9 @@ def gen_C08(v, n):
             s = sg.search(base=base, allow_gt=False, malformed=0.02)
             out.append(_op("C08", {"l": L, "s": s}))
         out.append(_op("C08", {"l": L, "s": rng.choice(L)}))
+        for e in L[:4]:
+            segs = e.split("/")
+            out.append(_op("C08", {"l": [e] + L, "s": "/".join(("*" if rng.random() < 0.45 else x) for x in segs)}))
     out.append(_op("C08", {"l": ["hamlet/a/char/x/model/v001/w/ma", "hamlet/a/char/x/model/v001/w/mb"],
                            "s": "hamlet/a/char/x/model/v001/w/maya"}))
     return out
@@ -159,7 +166,10 @@ def gen_C05(v, n):
             j = rng.randrange(len(f2))
             f2[j] = (f2[j][0], v.value((f2[j][0], dict(v.tdict[label])[f2[j][0]]), concrete_only=True))
             s2 = "/".join(val for _, val in f2)
-        out.append(_op("C05", {"s": rng.choice([s, s, s, label + ":" + s]), "s2": s2}))
+        inp = {"s": rng.choice([s, s, s, label + ":" + s]), "s2": s2}
+        if rng.random() < 0.3:      # Sids of the same string and other types asked for their path first
+            inp["pre"] = [l2 + ":" + s for l2 in v.labels if l2 != label and len(v.tdict[l2]) == len(fields)]
+        out.append(_op("C05", inp))
     return out
 
 
@@ -433,6 +443,19 @@ def gen_C10(v, n):
                 al = rng.choice(list(v.aliases.keys()))
                 s = "/".join(segs[:-1] + [al])
                 rules.append({"kind": "alias", "s": s, "alts": ["/".join(segs[:-1] + [m]) for m in v.aliases[al]]})
+            if rng.random() < 0.25:      # the same two rules for a ',' list / an alias in a FILTER value
+                k = rng.choice(keys)
+                pool = [w for w in (v.closed.get(k) or ["a", "b", "ophelia", "a-b"]) if w not in v.aliases and not any(ch in w for ch in " +%#~,")]
+                alts = rng.sample(pool, min(len(pool), 2))
+                if dict(fields)[k] not in alts and not any(ch in dict(fields)[k] for ch in " +%#~,"):
+                    alts[0] = dict(fields)[k]
+                base_s = "/".join(segs[:keys.index(k)] + ["*"] + segs[keys.index(k) + 1:])
+                rules.append({"kind": "or", "s": base_s + "?" + k + "=" + ",".join(alts), "alts": [base_s + "?" + k + "=" + a for a in alts]})
+                lk = v.leaf_keys.get(label.split(v.sep)[0])
+                if v.aliases and keys[-1] == lk:
+                    al = rng.choice(list(v.aliases.keys()))
+                    b2 = "/".join(segs[:-1] + ["*"])
+                    rules.append({"kind": "alias", "s": b2 + "?" + lk + "=" + al, "alts": [b2 + "?" + lk + "=" + m for m in v.aliases[al]]})
             elif kind == "starstar" and len(segs) >= 3:
                 i = rng.randrange(2, len(segs))
                 j = rng.randrange(i, len(segs) + 1)
